@@ -329,6 +329,13 @@ class Evaluator:
             d = "(declare-fun %s (%s) %s)" % (uf, sort_in, sort_out)
             if d not in self.extra_decls:
                 self.extra_decls.append(d)
+            # hashing / text casts are modelled as injective on the values that occur (an md5 collision among the ids of a
+            # bounded database is outside the claim): recorded here, asserted pairwise by injectivity_constraints()
+            if not hasattr(self, "uf_apps"):
+                self.uf_apps = {}
+            self.uf_apps.setdefault(uf, [])
+            if x.t not in self.uf_apps[uf]:
+                self.uf_apps[uf].append(x.t)
             return Cell(x.n, "str", "(%s %s)" % (uf, x.t), x.opt)
         raise Unsupported("function " + f)
 
@@ -337,5 +344,14 @@ class Evaluator:
             return self.b.decls
         return self.b.decls + self.extra_decls
 
+    def injectivity_constraints(self):
+        out = []
+        for uf, args in getattr(self, "uf_apps", {}).items():
+            for i in range(len(args)):
+                for j in range(i):
+                    if args[i] != args[j]:
+                        out.append("(=> (not (= %s %s)) (not (= (%s %s) (%s %s))))" % (args[i], args[j], uf, args[i], uf, args[j]))
+        return out
+
     def side_constraints(self):
-        return self.b.side + self.extra_side
+        return self.b.side + self.extra_side + self.injectivity_constraints()
